@@ -18,7 +18,23 @@ where
     V: FixedSizeVariation,
 {
     pub(crate) fn equals(&self, other: &(V, I)) -> bool {
-        self.index == other.1 && self.value == other.0
+        // compare the encoded objects so that floating point values are compared bit for bit:
+        // `==` would accept -0.0 for +0.0 and reject a faithfully echoed NaN
+        fn encode<V: FixedSizeVariation>(value: &V, buffer: &mut [u8; 32]) -> Option<usize> {
+            let mut cursor = WriteCursor::new(buffer);
+            value.write(&mut cursor).ok()?;
+            Some(cursor.position())
+        }
+
+        if self.index != other.1 {
+            return false;
+        }
+
+        let (mut lhs, mut rhs) = ([0u8; 32], [0u8; 32]);
+        match (encode(&self.value, &mut lhs), encode(&other.0, &mut rhs)) {
+            (Some(x), Some(y)) => x == y && lhs[..x] == rhs[..y],
+            _ => self.value == other.0,
+        }
     }
 }
 
